@@ -38,6 +38,10 @@ def generate(rng, tier):
     # prefix property by the oracle only (the literal is too long for the model's list walk in the quick tier)
     for (n, d) in [(256, 256), (182, 182)]:
         cases.append({"op": "init", "n": n, "d": d, "seed": str(rng.getrandbits(64)), "smaller": rng.randint(1, 5), "big": True, "huge": True})
+    # requests known to contain a draw beyond 5 sigma (seed 6: entry [107][251] = -5.117...; seed 24: [153][63] = 5.24...): a
+    # standard normal has no bound, nothing may censor the tails (found with the reference ziggurat; 1 entry in 1.7 million)
+    for sd in ["6", "24"]:
+        cases.append({"op": "init", "n": 255, "d": 255, "seed": sd, "big": True, "huge": True, "tail": True})
     while len(cases) < n_cases:
         n = rng.randint(0, 256) if rng.random() < 0.3 else rng.randint(0, 24)
         d = rng.randint(0, 256) if rng.random() < 0.3 else rng.randint(0, 24)
@@ -177,6 +181,8 @@ def oracle(case, out):
             return "non-finite f32 entry"
     if out["f32"] != [C.float_to_f32_bits(C.f64_bits_to_float(b)) for b in out["draws"]]:
         return "init_with_seed::<f32>(%d,%d,%s) is not the f64 draw stream rounded to f32, row-major" % (n, d, case["seed"])
+    if case.get("tail") and not any(abs(C.f64_bits_to_float(b)) > 5.0 for b in out["draws"]):
+        return "internal: the tail case for seed %s no longer contains a draw beyond 5 sigma" % case["seed"]
     if "smaller" in case:
         k = case["smaller"] * d
         if out["smaller_f64"] != out["f64"][:k] or out["smaller_f32"] != out["f32"][:k]:
